@@ -55,6 +55,21 @@ OpsId == { OpS("set_language", l) : l \in Langs } \cup { OpS("set_script", s) : 
          \cup { OpS("has_variant", v) : v \in Variants }
          \cup { Op0("clear_language"), Op0("clear_script"), Op0("clear_region"), Op0("clear_variants"), Op0("reparse") }
 
+(* "grown" containers: valid arguments only, but enough of them that every   *)
+(* container reaches 5..7 members (thresholds, binary-search positions in    *)
+(* longer vectors); the reachable graph is small because each part is alone  *)
+GAttrs == { B("aaa"), B("bbbbbbbb"), B("c3c"), B("ddd"), B("eee1"), B("fff"), B("zzz") }
+OpsGU == { OpS("set_attribute", a) : a \in GAttrs } \cup { OpS("remove_attribute", a) : a \in GAttrs }
+         \cup { OpS("has_attribute", a) : a \in GAttrs }
+GKeys == { B("ca"), B("cb"), B("1a"), B("hc"), B("nu"), B("zz") }
+OpsGK == { OpKV("set_keyword", k, v) : k \in GKeys, v \in { <<>>, <<B("x1x")>> } }
+         \cup { OpK("remove_keyword", k) : k \in GKeys } \cup { OpK("keyword", k) : k \in GKeys }
+GTKeys == { B("a0"), B("b1"), B("h0"), B("k0"), B("z9") }
+OpsGT == { OpKV("set_tfield", k, v) : k \in GTKeys, v \in { <<>>, <<B("hybrid")>> } }
+         \cup { OpK("remove_tfield", k) : k \in GTKeys } \cup { OpK("tfield", k) : k \in GTKeys }
+GTags == { B("a"), B("b"), B("c"), B("d"), B("e5"), B("f") }
+OpsGX == { OpS("add_tag", x) : x \in GTags } \cup { OpS("remove_tag", x) : x \in GTags } \cup { OpS("has_tag", x) : x \in GTags }
+
 (* the product machine: every operation, two or three arguments each        *)
 OpsAll ==
     { OpKV("set_keyword", k, v) : k \in {B("ca"), B("hc"), B("c1")}, v \in {<<>>, <<B("buddhist")>>, <<B("true")>>, <<B("ab")>>} }
@@ -96,9 +111,10 @@ HOpsId == { OpS("set_language", l) : l \in {B("de"), B("UND"), B("abcd")} } \cup
 Ops == IF Mode = "hist"
        THEN CASE Part = "U" -> HOpsU [] Part = "T" -> HOpsT [] Part = "X" -> HOpsX [] Part = "Id" -> HOpsId [] Part = "All" -> OpsAll
        ELSE CASE Part = "U" -> OpsU [] Part = "T" -> OpsT [] Part = "X" -> OpsX [] Part = "Id" -> OpsId [] Part = "All" -> OpsAll
+              [] Part = "GU" -> OpsGU [] Part = "GK" -> OpsGK [] Part = "GT" -> OpsGT [] Part = "GX" -> OpsGX
 
 (* bound the private-tag bag (it is the only unbounded component)           *)
-Bounded(v) == Len(v.priv) <= 3
+Bounded(v) == Len(v.priv) <= (IF Part = "GX" THEN 6 ELSE 3)
 
 (* start values: default(), or a parsed locale that already carries every   *)
 (* kind of extension                                                        *)
